@@ -171,6 +171,9 @@ func (h *Heap) set(key string, t *Term) *Heap {
 	h.vc.stamp++
 	n.writes[key] = h.vc.stamp
 	n.m[key] = t
+	if strings.HasPrefix(key, "E:") {
+		h.vc.noteSucc(key, t, h.get(key))
+	}
 	return n
 }
 
